@@ -289,7 +289,8 @@ Definition mem_init_yes (s : pstate) (a : fargs) (lu : lustore) : mres :=
   else
     let s := if fa_lwork a =? 0 then set_which s SYSTEM
              else let k := ps_stack s in
-                  set_stack (set_which s USER) (mkStack (fa_lwork a) (k_used k) (k_top1 k) (fa_lwork a) (k_array k)) in
+                  (* stack.size = lwork; stack.top2 = lwork; stack.used = stack.top1; *)
+                  set_stack (set_which s USER) (mkStack (fa_lwork a) (k_top1 k) (k_top1 k) (fa_lwork a) (k_array k)) in
     let s := set_exp s (ps_exp s) nzlumax nzumax nzlmax nzumax (lu_store lu) in
     let s := bind_glu s (lu_store lu) nzlmax nzumax nzlumax in
     MOk (set_noexp_ndim s (ps_no_expand s + 1) (ps_ndim s)) nzlmax nzumax nzlumax.
@@ -348,10 +349,9 @@ Fixpoint work_init_all (p : nat) (s : pstate) (a : fargs) : wres :=
            end
   end.
 
-Definition work_free (s : pstate) : pstate :=
-  if ps_which s =? SYSTEM then s
-  else let k := ps_stack s in
-       set_stack s (mkStack (k_size k) (k_used k - (k_size k - k_top2 k)) (k_top1 k) (k_size k) (k_array k)).
+(* p?gstrf_WorkFree: SYSTEM frees the two arrays; USER releases nothing (the tail holds the arrays of all threads, it is
+   reclaimed by the next p?gstrf_MemInit) *)
+Definition work_free (s : pstate) : pstate := s.
 
 (* p?gstrf_bmod2D.c:95-99 : if (first) { maxsuper = sp_ienv(3); rowblk = sp_ienv(4); first = 0; } *)
 Definition bmod_touch (s : pstate) (a : fargs) : pstate :=
